@@ -62,8 +62,51 @@ def step_post(arr, new, d, i, left):
             [a, b], z3.Implies(z3.And(0 <= a, a < T.d1(arr[lo]), 0 <= b, b < T.d1(arr[hi])),
                                T.mm(T.sl(new[lo], a), T.sl(new[hi], b)) == T.mm(T.sl(arr[lo], a), T.sl(arr[hi], b))),
             patterns=[T.mm(T.sl(new[lo], a), T.sl(new[hi], b))]),
+        'denoted-tensor-preserved': tensor_preserved(arr, new, d),
     }
     return post
+
+
+_ixq = z3.Const('ix!tp', T.IDX)
+
+
+def tensor_preserved(arr, new, d):
+    """Every entry of the tensor is unchanged: chain(new, i, d-1) = chain(arr, i, d-1) for every multi-index i inside the mode
+    sizes (first sentence of C04: "orthogonalisation changes the representation, not the tensor")."""
+    return z3.ForAll([_ixq], z3.Implies(T.index_ok(_ixq, arr, d), T.chain(new, _ixq, d - 1) == T.chain(arr, _ixq, d - 1)),
+                     patterns=[T.chain(new, _ixq, d - 1)])
+
+
+def local_replacement_lemma(U, p, arr, new, d, lo, axioms):
+    """Lemma (induction over the chain): if only the adjacent cores lo, lo+1 change, the mode sizes stay and the product of
+    their slices is preserved, then every partial chain from lo+1 on - in particular the tensor entry - is unchanged."""
+    hi = lo + 1
+    ix = z3.Const('ix', T.IDX)
+    kk = z3.Int('kk')
+    a, b, k = z3.Ints('a!l b!l k!l')
+    AXL = list(axioms) + T.axioms('chain')
+    ctx = list(p.pc) + [
+        T.index_ok(ix, arr, d), 0 <= lo, hi < d,
+        z3.ForAll([k], z3.Implies(z3.And(k != lo, k != hi), new[k] == arr[k]), patterns=[new[k]]),
+        T.d1(new[lo]) == T.d1(arr[lo]), T.d1(new[hi]) == T.d1(arr[hi]),
+        z3.ForAll([a, b], z3.Implies(z3.And(0 <= a, a < T.d1(arr[lo]), 0 <= b, b < T.d1(arr[hi])),
+                                     T.mm(T.sl(new[lo], a), T.sl(new[hi], b)) == T.mm(T.sl(arr[lo], a), T.sl(arr[hi], b))),
+                  patterns=[T.mm(T.sl(new[lo], a), T.sl(new[hi], b))])]
+    # (1) the prefix before the changed pair is untouched
+    P = lambda t: T.chain(new, ix, t) == T.chain(arr, ix, t)
+    U.lemma('prefix-chains-unchanged.base', ctx + [lo >= 1], P(z3.IntVal(0)), axioms=AXL, mode='ematch', kind='lemma-base')
+    U.lemma('prefix-chains-unchanged.step', ctx + [kk >= 1, kk < lo, P(kk - 1)], P(kk), axioms=AXL, mode='ematch', kind='lemma-step')
+    prefix = z3.ForAll([kk], z3.Implies(z3.And(0 <= kk, kk < lo), P(kk)), patterns=[T.chain(new, ix, kk)])
+    # (2) across the pair: associativity instances  (X S1) S2 = X (S1 S2)  for the old and the new slices (TTAlg.lean: mm_assoc)
+    X_new, X_old = T.chain(new, ix, lo - 1), T.chain(arr, ix, lo - 1)
+    s1n, s2n = T.sl(new[lo], ix[lo]), T.sl(new[hi], ix[hi])
+    s1o, s2o = T.sl(arr[lo], ix[lo]), T.sl(arr[hi], ix[hi])
+    assoc = [T.mm(T.mm(X_new, s1n), s2n) == T.mm(X_new, T.mm(s1n, s2n)), T.mm(T.mm(X_old, s1o), s2o) == T.mm(X_old, T.mm(s1o, s2o))]
+    U.lemma('chain-across-the-changed-pair-unchanged', ctx + [prefix] + assoc, P(hi), axioms=AXL, mode='ematch', kind='lemma-base')
+    # (3) behind the pair
+    U.lemma('suffix-chains-unchanged.step', ctx + [kk > hi, kk < d, P(kk - 1)], P(kk), axioms=AXL, mode='ematch', kind='lemma-step')
+    U.lemmas.append('associativity of the matrix product (instances given as hints; proved in lemmas/TTAlg.lean)')
+    return ctx, z3.ForAll([kk], z3.Implies(z3.And(hi <= kk, kk < d), P(kk)), patterns=[T.chain(new, ix, kk)]), ix
 
 
 def _step_unit(U, name, left, inplace):
@@ -112,6 +155,10 @@ def _step_unit(U, name, left, inplace):
                 U.post(lbl, p, g, axioms=AX, mode='ematch', extra=hint)
                 U.lemmas.append('associativity instance mm(mm(X,R),S) = mm(X,mm(R,S)) given as a hint (matrix product '
                                 'associativity, proved in lemmas/TTAlg.lean)')
+            elif lbl == 'denoted-tensor-preserved':
+                ctx, lem, ix = local_replacement_lemma(U, p, arr, new.arr, d, lo, AX)
+                U.post(lbl, ctx + [lem], T.chain(new.arr, ix, d - 1) == T.chain(arr, ix, d - 1), axioms=AX + T.axioms('chain'), mode='ematch')
+                U.canary('canary-lemma-context-contradictory', ctx + [lem], z3.BoolVal(False), axioms=AX + T.axioms('chain'))
             else:
                 U.post(lbl, p, g, axioms=AX, mode='ematch')
         U.post('well-formed-result', p, T.wf(new.arr, new.n), axioms=AX, mode='ematch')
@@ -179,6 +226,7 @@ def _call_step(left):
         for lbl, g in step_post(Zs.arr, new, Zs.n, i, left).items():
             st.assume(g)
         Zs.arr = new
+        st.ghost['last_step_arr'] = new
         return Zr
     return h
 
@@ -263,9 +311,15 @@ def call_core_stab(ex, st, args, kwargs, node):
         raise M.Unsupported('core_stab on a value that is neither a core nor a matrix')
     if not M.is_intsort(p0):
         ex.oblige(st, 'call-pre', 'core_stab: integer exponent', False, node)
-    q, p, vmax = ex.fresh('Qstab', T.Core if is_core else T.Mat), ex.fresh_int('pstab'), ex.fresh_real('vmax')
+    vmax = ex.fresh_real('vmax')
     st.assume(vmax >= 0)
-    for lbl, f in stab_post(G.t, p0, z3.RealVal('1e-100'), q, p, vmax).items():
+    thr = z3.RealVal('1e-100')
+    # the two cases of the postcondition are followed as separate paths (keeps `G = c * Q` out of the path where Q is G itself)
+    if ex.decide(st, vmax <= thr, node):
+        st.ghost.setdefault('stab', []).append((G.t, G.t, p0, p0))
+        return VTuple([G, p0])
+    q, p = ex.fresh('Qstab', T.Core if is_core else T.Mat), ex.fresh_int('pstab')
+    for lbl, f in stab_post(G.t, p0, thr, q, p, vmax).items():
         st.assume(f)
     st.ghost.setdefault('stab', []).append((G.t, q, p0, p))
     return VTuple([M.mk_core(q) if is_core else M.mk_mat(q), p])
@@ -301,7 +355,19 @@ def _orth_unit(U, use_stab):
                ('argument-untouched', z3.BoolVal(s.heap[Y.oid].arr is arr))]
         if use_stab:
             out.append(('exponent-is-integer', z3.BoolVal(M.is_intsort(s.vars['p']))))
+            if M.is_intsort(s.vars['p']):
+                out.append(('2^p-times-the-result-denotes-the-same-tensor', scaled_tensor(Zs.arr, Z(s.vars['p']))))
+        else:
+            out.append(('denotes-the-same-tensor', tensor_preserved(arr, Zs.arr, d)))
         return out
+
+    ixs = z3.Const('ix!st', T.IDX)
+
+    def scaled_tensor(Zarr, pexp):
+        """C16 / C04: "a mantissa tensor and a power-of-two exponent whose product is the true value", entry by entry."""
+        return z3.ForAll([ixs], z3.Implies(T.index_ok(ixs, arr, d),
+                                           T.smul(T.pow2r(z3.ToReal(pexp)), T.chain(Zarr, ixs, d - 1)) == T.chain(arr, ixs, d - 1)),
+                         patterns=[T.chain(Zarr, ixs, d - 1)])
 
     def inv0(ex, s, j):
         return common(ex, s, j, d - 1) + [('pivot', s.vars['k'] == kk)] if False else common(ex, s, j, d - 1)
@@ -309,7 +375,53 @@ def _orth_unit(U, use_stab):
     def inv1(ex, s, j):
         return common(ex, s, kk, d - 1 - j)
 
-    ex = U.executor(fn, loops={0: {'inv': inv0}, 1: {'inv': inv1}}, axioms=AXO)
+    # Lemma schema (proved once, for arbitrary constants, in a minimal context): if A[m] = c * q then with R = A[m := q]
+    #     chain(A, ix, k) = c * chain(R, ix, k)  for k >= m   (and = chain(R, ix, k) for k < m).
+    AXL = T.axioms('smulr', 'chain', 'core')
+    A_l, q_l, c_l, m_l, ix_l, k_l = z3.Const('A!l', T.TT), z3.Const('q!l', T.Core), z3.Real('c!l'), z3.Int('m!l'), z3.Const('ix!l', T.IDX), z3.Int('k!l')
+    R_l = z3.Store(A_l, m_l, q_l)
+    P_l = lambda k: T.chain(A_l, ix_l, k) == z3.If(k >= m_l, T.smul(c_l, T.chain(R_l, ix_l, k)), T.chain(R_l, ix_l, k))
+    hyp_l = [A_l[m_l] == T.cscale(c_l, q_l), 0 <= m_l, m_l < d]
+    if use_stab:
+        U.lemma('rescaling-one-core-rescales-the-chain.base', hyp_l, P_l(z3.IntVal(0)), axioms=AXL, mode='ematch', kind='lemma-base')
+        U.lemma('rescaling-one-core-rescales-the-chain.step', hyp_l + [k_l >= 1, k_l < d, P_l(k_l - 1)], P_l(k_l), axioms=AXL, mode='ematch',
+                kind='lemma-step')
+
+    def rescale_instance(Amid, R, m, q, c):
+        """Instance of the lemma schema at the arrays of one sweep step (conclusion at k = d - 1 >= m, for every multi-index);
+        R is the list after the rescaling, R = Amid[m := q]."""
+        return z3.Implies(z3.And(Amid[m] == T.cscale(c, q), 0 <= m, m < d, R == z3.Store(Amid, m, q)),
+                          z3.ForAll([ixs], T.chain(Amid, ixs, d - 1) == T.smul(c, T.chain(R, ixs, d - 1)),
+                                    patterns=[T.chain(R, ixs, d - 1)]))
+
+    def body_end(offset):
+        """Stabilised sweep: after `Z[m], p = core_stab(Z[m], p)` (m = i + offset) the list differs from the list after the
+        orthogonalisation step in core m only, and that core was c = 2^(p - p_before) times the stored one."""
+        def f(ex_, s_, o_, j_):
+            if not use_stab or o_.kind not in ('normal', 'continue'):
+                return
+            calls = s_.ghost.get('stab', [])
+            Amid = s_.ghost.get('last_step_arr')
+            if not calls or Amid is None:
+                raise M.ContractMismatch('orthogonalize(use_stab=True): expected one orthogonalisation step and one core_stab call per pass')
+            G, q, p0, p1 = calls[-1]
+            if q is G:                    # below the threshold: the core and the exponent are unchanged, nothing to show
+                return
+            m = Z(s_.vars['i']) + offset
+            c = T.pow2r(z3.ToReal(p1 - p0))
+            ex_.oblige(s_, 'post', 'rescaled-core-is-the-neighbour-that-received-the-weight', z3.And(G == Amid[m], 0 <= m, m < d), None)
+            ex_.oblige(s_, 'post', 'core-before-rescaling-is-2^(p-p0)-times-the-stored-core', Amid[m] == T.cscale(c, q), None)
+            R = s_.deref(s_.vars['Z']).arr
+            ex_.oblige(s_, 'post', 'list-after-the-rescaling-differs-in-that-core-only', R == z3.Store(Amid, m, q), None)
+            s_.assume(rescale_instance(Amid, R, m, q, c))
+            # instance of 2^(x+y) = 2^x 2^y at the exponents of this step
+            s_.assume(z3.Implies(z3.ToReal(p1) == z3.ToReal(p0) + z3.ToReal(p1 - p0),
+                                 T.pow2r(z3.ToReal(p1)) == T.rmul(T.pow2r(z3.ToReal(p0)), c)))
+        return f
+
+    if use_stab:
+        AXO = AXO + T.axioms('smulr', 'chain', 'core')
+    ex = U.executor(fn, loops={0: {'inv': inv0, 'body_end': body_end(1)}, 1: {'inv': inv1, 'body_end': body_end(-1)}}, axioms=AXO)
     ex.mode = 'ematch'
     st.vars.update(Y=Y, k=kp, use_stab=use_stab)
     res = U.run(ex, st, pre=[T.wf(arr, d)])
